@@ -34,7 +34,7 @@ WriteThrough(m, slots, k) ==
 AWriteThrough(E, pvs, k) ==
     {IF \E j \in 1..Len(pvs) : pvs[j].p.n = e.n /\ (k = 0 \/ k = j) THEN [e EXCEPT !.v = Flip(@)] ELSE e : e \in E}
 Observers == {"Get", "GetKV", "Contains", "Lpm", "Spm", "Cover", "Children", "Iter", "Len",
-              "ViewDesc", "Find", "Alias"}
+              "ViewDesc", "Find", "Alias", "CloneCheck", "Collect", "Serde"}
 
 \* C14: the slots to which mutable references are handed out simultaneously
 \*   "iter"        view.iter_mut()
@@ -56,6 +56,12 @@ AliasSlots(m, loc, how) ==
                                   ELSE (IF s[1].l # 0 THEN <<s[1].l>> ELSE <<>>) \o
                                        (IF s[1].r # 0 THEN <<s[1].r>> ELSE <<>>) \o Flat(Tail(s))
                    IN Flat(u)
+
+\* FromIterator: a new map with the entries inserted in iteration order
+RECURSIVE InsertAll(_, _)
+InsertAll(mm, es) == IF es = <<>> THEN mm ELSE InsertAll(MapInsert(mm, es[1].p, es[1].v).m, Tail(es))
+CollectOf(mm) == InsertAll(EmptyMap, IterAll(mm))
+EqAlg1(A, B) == IterAll(A) = IterAll(B)
 
 \* view_at(q) / view_mut_at(q) on the whole map
 ViewAt(m, q) == Find(m, RootLoc, q)
@@ -91,6 +97,12 @@ Apply(m, e) ==
       [] e.a = "ViewDesc"       -> LET at == ViewAt(m, e.p) IN
                                    Res(m, IF at = <<>> THEN <<>> ELSE <<Desc(m, at[1])>>)
       [] e.a = "Find"           -> Res(m, FindFrom(m, e.p, e.q, e.kind))
+      \* C19: clone() is equal and independent; rebuilding from the own entries (collect, serde round
+      \* trip) gives an equal map.  In the specification maps are values, so these are identities;
+      \* the events exist to be executed on the code: <<equal, independent one way, independent the other>>
+      [] e.a = "CloneCheck"     -> Res(m, <<1, 1, 1>>)
+      [] e.a = "Collect"        -> Res(m, <<B2S(EqAlg1(m, CollectOf(m)))[1], B2S(Tree(CollectOf(m)) = Tree(CollectOf(CollectOf(m))))[1]>>)
+      [] e.a = "Serde"          -> Res(m, <<1>>)
       [] e.a = "Alias"          ->                  \* C14: all mutable references obtainable at once below view_mut_at(p)
             LET at == ViewAt(m, e.p) IN
             IF at = <<>> THEN Res(m, <<>>)
@@ -149,6 +161,9 @@ AbsApply(E, e, r) ==
       \* views: the abstract map cannot know shapes or the prefixes of value-less nodes; the
       \* machine's answer is judged by the predicates in RetAgrees instead of by equality
       [] e.a \in {"ViewDesc", "Find", "Alias"} -> ARes(E, r.ret)
+      [] e.a = "CloneCheck"     -> ARes(E, <<1, 1, 1>>)
+      [] e.a = "Collect"        -> ARes(E, <<1, 1>>)
+      [] e.a = "Serde"          -> ARes(E, <<1>>)
       [] e.a = "ViewSet"        ->
             IF r.ret = <<>> \/ r.ret[1].ok = 0 THEN ARes(E, r.ret)
             ELSE \* the value is stored under the node's existing prefix (documented)
